@@ -27,6 +27,7 @@ fn main() {
         "fault" => drivers::fault::run(&mut rng, thorough, &mut t),
         "auth" => drivers::auth::run(&arg("--edges").expect("--edges"), &mut t),
         "stable" => drivers::pool::run_stable(&mut rng, thorough, &mut t),
+        "pool_replay" => drivers::pool_replay::run(&arg("--behaviours").expect("--behaviours"), &mut t),
         "farm_replay" => drivers::farm_replay::run(
             &arg("--behaviours").expect("--behaviours"),
             arg("--rate").map(|s| s.parse().unwrap()).unwrap_or(1000),
